@@ -2,7 +2,6 @@ package absint
 
 import (
 	"fmt"
-	"go/ast"
 	"go/token"
 	"go/types"
 	"math/big"
@@ -555,8 +554,10 @@ func (d *FieldDom) Call(in *Interp, site ssa.Instruction, fn *ssa.Function, args
 		obj := in.NewObject("Bytes()", types.NewArray(u8, 32), arr)
 		return []Val{SliceV{Obj: obj, Len: 32, Cap: 32}}, true
 	}
-	if len(fn.Blocks) > 0 && !ast.IsExported(fn.Name()) {
-		// an unexported Element method the domain has no transfer function for: interpret its body (see above)
+	if len(fn.Blocks) > 0 {
+		// an Element method the domain has no transfer function for (an unexported helper, or a convenience method
+		// added to the package's API such as Double or IsZero): interpret its body — it is meaningful here as long
+		// as it only combines Elements through the methods the domain knows (touching limbs stays undecided)
 		return nil, false
 	}
 	in.Undecided(site, "field primitive %s has no algebraic transfer function in E9", name)
